@@ -26,3 +26,29 @@ Lemma subset_spec a b : subset a b = true <-> (forall x, In x a -> In x b).
 Proof.
   unfold subset. rewrite forallb_forall. split; intros H x Hx; [apply mem_In; apply H; exact Hx | apply mem_In; apply H; exact Hx].
 Qed.
+
+(* ---------- the fluid's name: user string -> FluidType member stored -> name written back -> what the loader hands to set_fluid ----------
+   (lists regenerated from media.GHEFluid.__init__ / to_input and GHEManager.set_fluid on every run) *)
+Definition assoc (k : string) (l : list (string * string)) : option string :=
+  match find (fun p => String.eqb (fst p) k) l with Some p => Some (snd p) | None => None end.
+Fixpoint nodup_str (l : list string) : bool :=
+  match l with [] => true | x :: t => negb (existsb (String.eqb x) t) && nodup_str t end.
+
+(* every member of FluidType is recognised by its own name and stored as itself: writing the stored member's name gives back the name read *)
+Lemma fluid_name_round_trip : forall n, In n FluidType_names -> assoc n fluid_name_chain = Some n.
+Proof.
+  intros n H. cbv [FluidType_names] in H. cbn [In] in H.
+  repeat (destruct H as [H|H]; [subst n; reflexivity|]). contradiction.
+Qed.
+
+(* ... nothing else is recognised, every member has property tables of its own (distinct mixture codes), the name is what is written,
+   and the setter hands the three values on unchanged *)
+Lemma fluid_tables :
+  map fst fluid_name_chain = FluidType_names /\ map fst fluid_mixture_codes = FluidType_names /\
+  nodup_str (map snd fluid_mixture_codes) = true /\
+  assoc "fluid_name" fluid_written_values = Some "self.fluid_type.name"%string /\
+  assoc "concentration_percent" fluid_written_values = Some "self.concentration_percent"%string /\
+  assoc "temperature" fluid_written_values = Some "self.temperature"%string /\
+  fluid_super_init_args = ["pos:fluid_map[fluid_str]"; "pos:percent"; "pos:temperature"]%string /\
+  wiring_set_fluid = ["fluid_str=fluid_name"; "percent=concentration_percent"; "temperature=temperature"]%string.
+Proof. repeat split; reflexivity. Qed.
